@@ -121,6 +121,47 @@ def run_training_case(ctx, res, spec, lines, post):
     res.case(('train', str(spec)), True, {'spec': spec, 'targets': targets, 'update_bounds': update_bounds})
 
 
+def run_field_case(ctx, res, seed, lines, post):
+    """a component whose requested output is a FIELD QUANTITY compressed to two latent coefficients of very different magnitude:
+    the indicator is the relative change of the whole output (all latent coefficients together), so a candidate that only moves the
+    tiny coefficient must not beat the one that moves the output"""
+    from amisc import Component, System, Variable
+    from amisc.compression import SVD
+    rng = random.Random(seed)
+    npts = 20
+    grid = np.linspace(0, 1, npts)
+    u0 = np.ones(npts) / np.sqrt(npts)
+    u1 = np.cos(np.pi * (np.arange(npts) + 0.5) / npts); u1 -= (u1 @ u0) * u0; u1 /= np.linalg.norm(u1)
+    big, small, shift = rng.choice([50.0, 100.0, 400.0]), rng.choice([0.01, 0.02, 0.05]), rng.choice([0.3, 0.45, 0.6])
+
+    def field_model(inputs):
+        x1, x2 = np.asarray(inputs['x1'], dtype=float), np.asarray(inputs['x2'], dtype=float)
+        return {'f': (big + 0.1 * big * x1 ** 3)[..., np.newaxis] * u0 + (small * (x2 - shift))[..., np.newaxis] * u1}
+    f = Variable('f', compression=SVD(rank=2, coords=grid))
+    f.compression.compute_map(data_matrix=np.column_stack([big * u0, 1.0 * u1]), rank=2)
+    comp = Component(field_model, [Variable('x1', distribution='U(0, 1)'), Variable('x2', distribution='U(0, 1)')], [f],
+                     data_fidelity=(2, 2), name='field', vectorized=True)
+    system = System(comp, name='c08_field')
+    system.set_logger(stdout=False)
+    np.random.seed(seed % 2 ** 31)
+    info0 = {'field_case': seed, 'amplitudes': [big, small], 'shift': shift}
+    for step in range(5):
+        uninit = len(comp.active_set) == 0
+        table = None
+        if not uninit:
+            st = np.random.get_state()
+            table = recompute_table(system, ['f'], 60)
+            np.random.set_state(st)
+        r = system.refine(targets=['f'], num_refine=60)
+        if r['component'] is None:
+            break
+        if not uninit:
+            chosen = (r['component'], tuple(r['alpha']) + tuple(r['beta']))
+            lines.append(fmt_table(table)); post.append(('choose', {**info0, 'step': step}, table, chosen))
+            res.hit('scan-step-field-quantity-target')
+    res.case(('field', seed), True, info0)
+
+
 def run_termination_case(ctx, res, spec, lines, post):
     """fit() with each termination cause; entries recorded vs the Lean fitLoop on the observed error sequence"""
     rng = random.Random(spec['seed'] + 17)
@@ -257,7 +298,7 @@ def run(ctx: core.Ctx, only=None) -> core.Result:
                 'Lean fitLoop. Every case is non-trivial (>= 1 scan step).')
     lines, post = [], []
     if only is not None:
-        specs = [o.get('input', o).get('spec', o.get('input', o)) for o in only if 'zero_surrogate' not in str(o)]
+        specs = [o.get('input', o).get('spec', o.get('input', o)) for o in only if 'zero_surrogate' not in str(o) and 'field_case' not in str(o)]
     else:
         specs = [c.get('spec', c) for c in core.corpus_cases('C08')] + \
             [sc.gen_system_spec(ctx.rng) for _ in range(ctx.scale(7, 40))]
@@ -271,6 +312,15 @@ def run(ctx: core.Ctx, only=None) -> core.Result:
         if i < ctx.scale(2, 10):
             with core.guarded(res, 'scenario-raised', {'spec': spec, 'part': 'termination'}):
                 run_termination_case(ctx, res, spec, lines, post)
+    if only is None:
+        for _ in range(ctx.scale(2, 8)):
+            sd = ctx.rng.randrange(10 ** 6)
+            with core.guarded(res, 'scenario-raised', {'field_case': sd}):
+                run_field_case(ctx, res, sd, lines, post)
+    else:
+        for o in only:
+            if 'field_case' in o.get('input', o):
+                run_field_case(ctx, res, o.get('input', o)['field_case'], lines, post)
     if only is None or any('zero_surrogate' in str(o) for o in only):
         with core.guarded(res, 'scenario-raised', {'zero_surrogate': True}):
             run_zero_surrogate_case(ctx, res)
